@@ -6,7 +6,9 @@
 (*   cfg        <<commit, tag, push>> of the config file (tag/push need    *)
 (*              commit; other triples are rejected by the config loader)   *)
 (*   fcommit, ftag, fpush   tri-state flags "unset" | "yes" | "no"         *)
-(*   pre, post  hooks "absent" | "ok" | "fail";  hooksrc "config" | "cli"  *)
+(*   pre, post  hooks "absent" | "ok" | "fail" (runs, exits non-zero) |     *)
+(*              "unstartable" (the file exists but cannot be executed);    *)
+(*              hooksrc "config" | "cli"                                   *)
 (*   dirty, allow, tagmsg, remote, dry, fetch   booleans                   *)
 (*   ignore     --ignore-vcs-tag (the start version is the config value:   *)
 (*              no fetch, no tag listing)                                  *)
@@ -21,7 +23,8 @@
 EXTENDS Naturals, Sequences, FiniteSets
 
 Tri == {"unset", "yes", "no"}
-Hook == {"absent", "ok", "fail"}
+Hook == {"absent", "ok", "fail", "unstartable"}
+HookFails(h) == h \in {"fail", "unstartable"}        \* a hook that cannot be started stops the run like one that exits non-zero
 CfgTriples == {<<c, t, p>> \in BOOLEAN \X BOOLEAN \X BOOLEAN : (t \/ p) => c}
 Failable == {"none", "fetch", "lstags", "status", "add", "commit", "tag", "push"}
 
@@ -48,8 +51,8 @@ StepFails(c, name) ==
   \/ name \in {"tag", "tag_light"} /\ c.failat = "tag"
   \/ name \in {"push", "push_tag"} /\ c.failat = "push"
   \/ name = "status" /\ c.dirty /\ ~c.allow
-  \/ name = "prehook" /\ c.pre = "fail"
-  \/ name = "posthook" /\ c.post = "fail"
+  \/ name = "prehook" /\ HookFails(c.pre)
+  \/ name = "posthook" /\ HookFails(c.post)
 FirstFail(c) == LET s == FullSteps(c) bad == {q \in 1..Len(s) : StepFails(c, s[q])} IN
                 IF bad = {} THEN 0 ELSE CHOOSE q \in bad : \A r \in bad : q <= r
 RECURSIVE CollapseTags(_)
